@@ -945,3 +945,41 @@ CHECKS = {
     },
 }
 CHECKS.update(CHECKS_K1)
+
+# ---------------------------------------------------------------------------------------------------------------------------------
+# Units added to existing checks in session 4b (callee contracts and scope conditions); appended to the texts above.
+_SCHED_CALLEES = (" Callee contracts re-proved inside this check: Scheduler.invoke_action (runs the action exactly once with the scheduler and "
+                  "the state, returns the action's disposable or an inert one) and ScheduledItem.invoke / cancel / is_cancelled (what the "
+                  "action returned is disposed exactly once whether cancel comes before or after invoke) - schedbase.py")
+_QUEUE = "; PriorityQueue + ScheduledItem ordering (insertion order among equal due times) against the assumed heapq contract - vts.py queue mode."
+ADDENDA = {
+    "C27": " Functional clauses (refcount.py, sequential, from an arbitrary state satisfying the monitor invariant): .disposable counts and "
+           "attaches a new dependent whenever the resource is not released yet - also after the primary was disposed - and is inert "
+           "afterwards; release() gives back exactly one unit and disposes the resource exactly when the primary is disposed and "
+           "none is left; dispose() disposes it exactly when it is the first dispose and no dependent is alive; a dependent releases "
+           "once however often it is disposed.",
+    "C10": " catch(handler) - the one operator of this property that is not built on the three engines - is under a K1 contract of its own "
+           "(contracts/c10.py): the source is mirrored, its error hands the subscriber to handler(e, source) in place of the source's "
+           "subscription, a raising handler ends the output; scenario 'the source fails from inside its subscribe call': the "
+           "continuation subscribed in that nested step is still subscribed when subscribe returns.",
+    "C03": " from_iterable_'s emission loop (srcfac unit, loop contract: the user's iterator is asked only while the subscription is not "
+           "disposed) is part of this check; a loop of another shape drifts to the native run, which counts the items pulled "
+           "after a dispose() issued inside on_next.",
+    "C07": " The K1 contracts of the five stage operators (take_, skip_, take_last_, skip_last_, filter_indexed_) whose spec machines the closed "
+           "forms are lemmas over are re-proved inside this check.",
+    "C09": " A try statement with specific clauses only (`except KeyError:`) around a user call is not a guard, but each of its clauses must "
+           "deliver or re-raise: it catches that class of exception when the user's function raises it (found case(): fixed db6b252).",
+    "C14": " The operators' state is proved to be allocated per subscription (frame condition, frame.run_local): repeat / retry / a second "
+           "subscriber re-subscribe the same early-terminating observable.",
+    "C28": _SCHED_CALLEES + ".", "C29": _SCHED_CALLEES + ".", "C33": _SCHED_CALLEES + ".", "C42": _SCHED_CALLEES + ".",
+    "C30": _SCHED_CALLEES + _QUEUE, "C31": _SCHED_CALLEES + _QUEUE, "C34": _SCHED_CALLEES + _QUEUE, "C35": _SCHED_CALLEES + _QUEUE,
+}
+_PUB = (" The public entry points of these operators (reactivex/operators/__init__.py, reactivex/__init__.py) are proved to reach the implementation "
+        "functions under contract with the very arguments (pubapi.py: same-named parameter unchanged, plus the documented exceptions such as "
+        "find_index = find_value_(predicate, yield_index=True)).")
+for _p in ("C05", "C06", "C07", "C09", "C10", "C13", "C14", "C15", "C16", "C17", "C18", "C19", "C24", "C37", "C40"):
+    ADDENDA[_p] = ADDENDA.get(_p, "") + _PUB
+for _p, _t in ADDENDA.items():
+    if _p in CHECKS:
+        CHECKS[_p] = dict(CHECKS[_p], text=CHECKS[_p]["text"] + _t)
+
